@@ -20,10 +20,10 @@ Definition nb := [98%N].
 
 (* "foo <a>" (Zahl) | "foo <a>" (Zahlen Referenz) | "foo <a> bar <b>" (a Zahl, b Text) |
    "foo <b> bar <a>" of a second function whose parameters are declared in the other order *)
-Definition e1 := mkAlias 1 1 [foo; phd na false 2 1] [mkParam na tZ false] false false.
-Definition e2 := mkAlias 2 2 [foo; phd na true 2 1] [mkParam na tZ true] false false.
-Definition e3 := mkAlias 3 3 [foo; phd na false 2 1; bar; phd nb false 1 2] [mkParam na tZ false; mkParam nb tT false] false false.
-Definition e4 := mkAlias 4 4 [foo; phd nb false 1 2; bar; phd na false 2 1] [mkParam nb tT false; mkParam na tZ false] true false.
+Definition e1 := mkAlias 1 1 [foo; phd na false 2 1] [mkParam na tZ false] false.
+Definition e2 := mkAlias 2 2 [foo; phd na true 2 1] [mkParam na tZ true] false.
+Definition e3 := mkAlias 3 3 [foo; phd na false 2 1; bar; phd nb false 1 2] [mkParam na tZ false; mkParam nb tT false] false.
+Definition e4 := mkAlias 4 4 [foo; phd nb false 1 2; bar; phd na false 2 1] [mkParam nb tT false; mkParam na tZ false] true.
 Definition epop := [e1; e2; e3; e4].
 
 (* stream: foo vz bar "s" .   with vz a Zahl variable *)
@@ -60,8 +60,9 @@ Example ex_sorted_perm : sorted_perm (candidates es1 (declare_all epop) 0) (isor
 Proof. apply isort_sorted_perm. Qed.
 Example ex_candidates : map a_id (candidates es1 (declare_all epop) 0) = [4; 1; 3; 2]%N.
 Proof. vm_compute. reflexivity. Qed.
-Example ex_generic_is_counted : forall c, In c epop -> generic_is_counted c.
-Proof. intros c H. unfold generic_is_counted. cbn in H. repeat (destruct H as [<-|H]; [vm_compute; split; intros X; (discriminate X || inversion X)|]). destruct H. Qed.
+(* generic beside concrete: "foo <a>" for a Zahlen Liste and for a T Liste, call with a Zahlen Liste *)
+Example ex_nongeneric_preferred : exists b e, w_select [w_gen; w_conc] = Selected w_conc b e.
+Proof. vm_compute. eauto. Qed.
 
 (* nothing type-matches: foo "s" .  -> the first of the sorted candidates is called untyped *)
 Example ex_fallback :
